@@ -17,6 +17,7 @@ mod ckequiv;
 mod codec;
 mod aggregate;
 mod ratelimit;
+mod breaker;
 
 fn main() {
     let args: Vec<String> = std::env::args().collect();
@@ -50,6 +51,7 @@ fn main() {
         "agg-replay" => aggregate::replay(rest),
         "rl-replay" => ratelimit::replay(rest),
         "rl-record" => ratelimit::record(rest),
+        "breaker-replay" => breaker::replay(rest),
         "for-expand" => misc::for_expand(rest),
         "event-file" => misc::event_file(rest),
         other => {
